@@ -690,10 +690,15 @@ fn search(oracle: &str, seed: u64) -> Outcome {
                     let e = v.div_euclid(1_000_000) * 1_000_000;
                     if od.usecs() != e { fail!(format!("OracleDate::from(Timestamp(usecs={}))", v), format!("{}", e), format!("{}", od.usecs())); }
                 }}}
-                for v in [-1i64, -999_999, -1_000_001, 1, 999_999, TSMIN + 1, TSMAX] {
+                for v in [-1i64, -999_999, -1_000_001, 1, 999_999, TSMIN + 1, TSMAX, TSMIN - 1_000_000, TSMIN - 86_399_000_000, TSMIN - DAY, TSMAX + 1, TSMAX + 1 + DAY, i64::MIN, i64::MAX] {
                     n_eval += 1;
                     let r = OracleDate::try_from_usecs(v);
                     if r.is_ok() { fail!(format!("OracleDate::try_from_usecs({})", v), "Err(DateOutOfRange)".into(), format!("Ok({})", r.unwrap().usecs())); }
+                }
+                for v in [TSMIN, TSMIN + 1_000_000, -1_000_000, 0, 1_000_000, TSMAX - 999_999] {
+                    n_eval += 1;
+                    let r = OracleDate::try_from_usecs(v);
+                    if r.is_err() || r.as_ref().unwrap().usecs() != v { fail!(format!("OracleDate::try_from_usecs({})", v), format!("Ok({})", v), format!("{:?}", r.map(|x| x.usecs()))); }
                 }
                 None
             }
